@@ -920,6 +920,7 @@ def _append(I, recv, args, kw):
         if not isinstance(x, (SStr, str)):
             raise Unsupported("join-list append of non-str")
         recv.acc = I.binop(ast.Add(), recv.acc, x) if recv.acc != "" else x
+        recv.last = x   # the piece appended last (ghost: specifications may name it)
         return None
     if recv.items is not None:
         recv.items.append(x)
@@ -1560,4 +1561,44 @@ def _json_dumps(I, args, kw):
     if key not in ex.facts_seen:
         ex.facts_seen.add(key)
         ex.assume(F_json_loads(r) == t)
+    return SStr(r)
+
+
+# ------------------------------------------------------------------ character classes and hex formatting (string serialiser, C12/C20)
+P_printable = z3.Function("char_isprintable", z3.IntSort(), BoolSort)
+F_hex04 = z3.Function("format_04x", z3.IntSort(), StrSort)
+
+
+def _isprintable(I, recv, args, kw):
+    ex = I.ex
+    if isinstance(recv, str):
+        return recv.isprintable()
+    t = _S(I, recv)
+    if not ex.prove_now(z3.Length(t) == 1):
+        raise Unsupported("str.isprintable of a string not known to be one character")
+    c = t[0]
+    I.use("str.isprintable() of one character: uninterpreted predicate of the code point; a printable character is not a control "
+          "character (code >= 32, != 127) and not a surrogate (Unicode categories Cc, Cs are not printable)")
+    ex.assume(z3.Implies(P_printable(c), z3.And(c >= 32, c != 127, z3.Not(z3.And(c >= 0xD800, c <= 0xDFFF)))))
+    return SBool(P_printable(c))
+
+
+meth("str", "isprintable")(_isprintable)
+
+
+def hex04(I, v):
+    """format(n, '04x'): for 0 <= n <= 0xFFFF exactly four lowercase hex digits whose value is n (library fact); longer otherwise."""
+    ex = I.ex
+    n = ex.to_int_term(v)
+    r = F_hex04(n)
+    key = ("hex04", n.sexpr())
+    if key not in ex.facts_seen:
+        ex.facts_seen.add(key)
+        dig = lambda ch: z3.If(z3.And(ch >= 48, ch <= 57), ch - 48, ch - 87)  # noqa: E731
+        ishex = lambda ch: z3.Or(z3.And(ch >= 48, ch <= 57), z3.And(ch >= 97, ch <= 102))  # noqa: E731
+        ex.assume(z3.Implies(z3.And(n >= 0, n <= 0xFFFF), z3.And(
+            z3.Length(r) == 4, ishex(r[0]), ishex(r[1]), ishex(r[2]), ishex(r[3]),
+            dig(r[0]) * 4096 + dig(r[1]) * 256 + dig(r[2]) * 16 + dig(r[3]) == n)))
+        ex.assume(z3.Length(r) >= 4)
+    I.use("format(n, '04x'): four lowercase hex digits denoting n when 0 <= n <= 0xFFFF (library fact)")
     return SStr(r)
